@@ -659,8 +659,9 @@ class Fillings:
     """Post-conditions of fill() on the real Occupations code for a symbolic electron count / spin / band count / smearing:
     sum of the fillings == Nelec, 0 <= f_i <= 2/Nspin, up - down == spin, same fillings for every k-point."""
 
-    def __init__(self, Nspin, fractional=False, magnetization=False):
+    def __init__(self, Nspin, fractional=False, magnetization=False, f=None):
         self.Nspin, self.fractional, self.magnetization = Nspin, fractional, magnetization
+        self.f = f  # explicit scalar filling handed to fill() (None: the default 2 / Nspin)
 
     def __call__(self, ob, tier, seed):
         Nspin = self.Nspin
@@ -678,7 +679,7 @@ class Fillings:
 
             s = clone(occ)
             f = it.get_attr(s, "fill")
-            it.call(f, [], {} if mag is None else {"magnetization": mag})
+            it.call(f, [] if self.f is None else [float(self.f)], {} if mag is None else {"magnetization": mag})
             return None, s
 
         try:
@@ -693,7 +694,7 @@ class Fillings:
             return self._refute(f"obligation `{label}` fails", model, ne, sp, w)
         npost = 0
         slow = {}
-        fval = 2.0 / Nspin
+        fval = 2.0 / Nspin if self.f is None else float(self.f)
         for r in res:
             if r.outcome == "cut":
                 continue
@@ -769,6 +770,31 @@ class Fillings:
         eminus.config.backend = "numpy"
         eminus.config.verbose = "critical"
         Nspin = wit["Nspin"]
+        if self.f is not None:
+            for ne, nk, sm, sp in itertools.product((1, 2, 3, 4, 5, 7), (1, 2), (0.0, 0.01), (0, 1, 2, 3)):
+                if Nspin == 1 and sp or sp > ne or (Nspin == 2 and ne % 2 != sp % 2):
+                    continue
+                o = Occupations()
+                o.Nelec, o.Nspin = ne, Nspin
+                o.spin = sp
+                o.smearing = sm
+                o.wk = [1.0 / nk] * nk
+                try:
+                    o.fill(float(self.f))
+                except Exception as e:  # noqa: BLE001
+                    return True, dict(Nelec=ne, spin=sp, f=float(self.f), raised=f"{type(e).__name__}: {e}")
+                f = np.asarray(o.f, dtype=float)
+                tot = float(np.sum(np.asarray(o.wk)[:, None, None] * f))
+                bad = []
+                if abs(tot - ne) > 1e-9:
+                    bad.append(f"k-weighted sum {tot} != Nelec {ne}")
+                if f.min() < -1e-12 or f.max() > float(self.f) + 1e-12:
+                    bad.append(f"filling outside [0, {float(self.f)}]")
+                if Nspin == 2 and abs(float(f[0, 0].sum() - f[0, 1].sum()) - sp) > 1e-9:
+                    bad.append(f"up - down = {float(f[0, 0].sum() - f[0, 1].sum())} != spin {sp}")
+                if bad:
+                    return True, dict(Nelec=ne, spin=sp, f=float(self.f), Nk=nk, smearing=sm, violated=bad, fillings=f[0].tolist())
+            return False, dict(note="post-conditions hold natively for the explicit scalar filling on the scanned grid")
         if self.magnetization:
             for ne, m in itertools.product((1, 2, 3, 5, 8), (0.5, 0.25, -0.5, 0.1, 1.0, 0.0)):
                 o = Occupations()
@@ -1057,6 +1083,13 @@ def _register_fill():
                             run=Fillings(Nspin), budget={"quick": 200, "thorough": 900}, assumes=Z,
                             doc=f"fill() (Nspin={Nspin}, integer branch): sum f = Nelec, 0 <= f <= 2/Nspin, up-down = spin, Nstate columns, "
                                 "same for every k-point; index validity and loop invariant of the overflow-removal loop (any Nelec, spin, bands, smearing)"))
+    from fractions import Fraction as _F
+
+    for Nspin, fv in ((1, _F(2, 3)), (1, _F(3, 2)), (1, _F(5, 4)), (2, _F(3, 4)), (2, _F(2, 3))):
+        register(Obligation(name=f"C13.fill.integer.Nspin{Nspin}.f={fv}", prop=PROP, engine="Z",
+                            functions=["eminus.occupations:Occupations.fill", "eminus.occupations:Occupations._integer_fillings"],
+                            run=Fillings(Nspin, f=fv), budget={"quick": 200, "thorough": 900}, assumes=Z,
+                            doc=f"fill({fv}) (Nspin={Nspin}, integer branch, explicit scalar filling whose multiples need not be whole electrons): sum f = Nelec, 0 <= f_i <= {fv}"))
     register(Obligation(name="C13.fill.fractional.Nspin2", prop=PROP, engine="Z",
                         functions=["eminus.occupations:Occupations.fill", "eminus.occupations:Occupations._fractional_fillings"],
                         run=Fillings(2, fractional=True), budget={"quick": 200, "thorough": 900}, assumes=Z,
@@ -1068,3 +1101,57 @@ def _register_fill():
 
 
 _register_fill()
+
+
+# ------------------------------------------------------------------------------------------------
+# machine arithmetic: the entropy term in float64 (the proof above is over the reals)
+# ------------------------------------------------------------------------------------------------
+
+
+class EntropyFloatScan:
+    """BOUNDED: in float64 the Fermi factor saturates to exactly 0.0 / 1.0 a few tens of widths away from the Fermi level; the entropy term has to
+    stay finite and <= 0 there (the real-number proof cannot see the saturation). Dense scan of (E - mu) / kbT over [-80, 80] (and +-745) for several widths, scalar arguments (the
+    only call form of the package: get_Eentropy loops over the states)."""
+
+    def problems(self):
+        import warnings
+
+        import eminus
+        from eminus.tools import electronic_entropy
+
+        eminus.config.backend = "numpy"
+        eminus.config.verbose = "critical"
+        bad = []
+        n = 0
+        with warnings.catch_warnings():
+            warnings.simplefilter("ignore")
+            for kbT in (1e-3, 0.01, 0.3):
+                xs = np.concatenate([np.linspace(-80, 80, 3201), [-36.0, 36.0, -36.7368, -37.0, -39.999, 39.999, -745.0, 745.0]])
+                for x in xs:
+                    n += 1
+                    try:
+                        v = electronic_entropy(float(x * kbT), 0.0, kbT)
+                    except Exception as e:  # noqa: BLE001
+                        bad.append(dict(x=float(x), kbT=kbT, raised=f"{type(e).__name__}: {e}"))
+                        continue
+                    v = float(v)
+                    if not np.isfinite(v) or v > 1e-15:
+                        bad.append(dict(x=float(x), kbT=kbT, value=v))
+        return bad, n
+
+    def __call__(self, ob, tier, seed):
+        bad, n = self.problems()
+        if bad:
+            return Result(REFUTED, backend="native", witness=bad[0], replayed=True, replay_info=dict(failing=bad[:5], scanned=n),
+                          detail=f"electronic_entropy is not finite and <= 0 in float64 at {bad[0]}")
+        from pycv.framework import BOUNDED_OK
+
+        return Result(BOUNDED_OK, backend="native", stats=dict(scanned=n), detail=f"bounded: {n} float64 evaluations over |E - mu| / kbT <= 80 (and +-745), three widths: finite and <= 0")
+
+    def replay(self, wit):
+        bad, n = self.problems()
+        return bool(bad), dict(failing=bad[:5], scanned=n)
+
+
+register(Obligation(name="C13.electronic_entropy.float64_finite_nonpositive", prop=PROP, engine="B", bounded=True, functions=["eminus.tools:electronic_entropy", "eminus.energies:get_Eentropy"],
+                    run=EntropyFloatScan(), doc="BOUNDED (machine arithmetic): the entropy term is finite and <= 0 in float64 where the Fermi factor saturates"))
